@@ -108,7 +108,10 @@ package actor
 //@            gcount(told, iface(h.ctx.ref), 2 * tagof("*vivid.OnLaunch") + 1) == old(gcount(told, iface(h.ctx.ref), 2 * tagof("*vivid.OnLaunch") + 1)) + 1
 //@   ensures  old(h.shouldContinue) && old(h.restarting) && !h.ctx.zombie ==>
 //@            forall r vivid.ActorRef, k mathint :: (r != iface(h.ctx.ref) || k != 2 * tagof("*vivid.OnLaunch") + 1) ==> gcount(told, r, k) == old(gcount(told, r, k))
-//@   ensures  old(h.shouldContinue) && old(h.restarting) && !h.ctx.zombie ==> h.ctx.state == 0 && h.ctx.restarting == nil && len(h.ctx.behaviorStack.behaviors) == 1
+//@   ensures  old(h.shouldContinue) && old(h.restarting) && !h.ctx.zombie ==> h.ctx.state == 0 && h.ctx.restarting == nil && len(h.ctx.behaviorStack.behaviors) == 1 &&
+//@            fresh(h.ctx.behaviorStack.behaviors[0])
+//@   ensures  forall k mathint :: k != 2 * tagof("*vivid.OnLaunch") + 1 ==> gcount(toldn, k) == old(gcount(toldn, k))
+//@   ensures  forall t mathint :: t != tagof("ves.ActorRestartedEvent") && t != tagof("ves.ActorMailboxResumedEvent") ==> gcount(published, t) == old(gcount(published, t))
 // in BOTH outcomes (restarted, zombie) the mailbox is resumed exactly once; a zombie tells nobody
 //@   ensures  old(h.shouldContinue) && old(h.restarting) ==> gcount(resumes, h.ctx.mailbox) == old(gcount(resumes, h.ctx.mailbox)) + 1
 //@   ensures  old(h.shouldContinue) && old(h.restarting) && h.ctx.zombie && !old(h.ctx.zombie) ==>
@@ -257,13 +260,16 @@ package actor
 //@   ensures  old(h.shouldContinue) && !old(h.restarting) && h.ctx.parent != nil ==>
 //@            gcount(told, iface(h.ctx.parent), kKilledSys()) > old(gcount(told, iface(h.ctx.parent), kKilledSys()))
 //@   ensures  forall r vivid.ActorRef, k mathint :: k != kKilledSys() ==> gcount(told, r, k) == old(gcount(told, r, k))
+//@   ensures  forall k mathint :: k != kKilledSys() ==> gcount(toldn, k) == old(gcount(toldn, k))
+//@   ensures  forall t mathint :: t != tagof("ves.ActorKilledEvent") ==> gcount(published, t) == old(gcount(published, t))
 //@ loop (*killedHandler).cleanupIfNotRestarting#1
 //@   invariant gcount(toldn, kKilledSys()) == old(gcount(toldn, kKilledSys())) + seencount()
 //@   invariant forall p string :: seen(p) ==> p in h.ctx.watchers && gcount(told, h.ctx.watchers[p], kKilledSys()) > old(gcount(told, h.ctx.watchers[p], kKilledSys()))
 //@   invariant forall r vivid.ActorRef, k mathint :: k != kKilledSys() ==> gcount(told, r, k) == old(gcount(told, r, k))
 //@   invariant forall r vivid.ActorRef, k mathint :: gcount(told, r, k) >= old(gcount(told, r, k))
 //@   invariant gcount(unregistered, h.ctx) == old(gcount(unregistered, h.ctx)) + 1 && gcount(unsuball, iface(h.ctx)) == old(gcount(unsuball, iface(h.ctx))) + 1
-//@   invariant gcount(published, tagof("ves.ActorKilledEvent")) == old(gcount(published, tagof("ves.ActorKilledEvent")))
+//@   invariant forall t mathint :: gcount(published, t) == old(gcount(published, t))
+//@   invariant forall k mathint :: k != kKilledSys() ==> gcount(toldn, k) == old(gcount(toldn, k))
 
 // steps of the chain that run user code / the job scheduler: trusted frames (they tell nobody on behalf of the
 // core, do not touch the registry, and leave the core fields the later steps read alone)
@@ -294,9 +300,29 @@ package actor
 
 //@ func (*System).removeFuturesByAgentPath
 //@   trusted
-// runs the behaviour under recover; a failure may reach failed() (supervision) - that path is C08, trusted here
-//@ func (*Context).executeBehaviorWithRecovery
+// ---------------------------------------------------------------------------------------------
+// C08: which failures reach supervision. failed() is the one place that pauses the mailbox and reports to the
+// parent; failures(c) counts its calls. The behaviour is user code: it may return or panic (maypanic), it does
+// not change the core's state word, envelope or reference.
+//@ ghost failures(ptr)
+//@ func (*Context).failed
 //@   trusted
+//@   ghostinc failures(c)
+// a death notice names the actor that died
+//@ pure killedMsgOK(c *Context) bool = typeis(envMessage(c.envelop), "*vivid.OnKilled") ==>
+//@     !nilptr(envMessage(c.envelop)) && unboxed(envMessage(c.envelop), "*vivid.OnKilled").Ref != nil &&
+//@     (typeis(unboxed(envMessage(c.envelop), "*vivid.OnKilled").Ref, "*actor.Ref") ==> !nilptr(unboxed(envMessage(c.envelop), "*vivid.OnKilled").Ref))
+//@ func (*Context).executeBehaviorWithRecovery
+//@   funcspec behavior maypanic preserves ctxwf(c), killedMsgOK(c), c.state, c.envelop, c.ref, c.zombie, c.restarting, c.children, c.watchers
+//@   requires ctxwf(c) && c.envelop != nil && behavior != nil && killedMsgOK(c)
+//@   modifies anyold, gmap(failures)
+//@   ensures  c.state == old(c.state) && c.envelop == old(c.envelop) && c.ref == old(c.ref) && ctxwf(c)
+//@   ensures  gcount(failures, c) <= old(gcount(failures, c)) + 1
+//@   ensures  forall d *Context :: d != c ==> gcount(failures, d) == old(gcount(failures, d))
+// a failure while the actor is already stopping does not trigger supervision:
+//@   ensures  typeis(envMessage(c.envelop), "*vivid.OnKill") ==> gcount(failures, c) == old(gcount(failures, c))
+//@   ensures  typeis(envMessage(c.envelop), "*vivid.OnKilled") && c.state != 0 ==> gcount(failures, c) == old(gcount(failures, c))
+//@   ensures  ghost(calls_behavior) == old(ghost(calls_behavior)) + 1
 
 // an actor that has been released (registry entry removed) stays released: it is not a zombie any more and it is
 // not running, so no later kill can run the clean-up again
